@@ -15,18 +15,19 @@ import (
 //	Mode ill : ill-typed expression (text in arithmetic, mixed comparisons ...): weak oracle only.
 //	Mode fn  : direct call of built-in Fn with argument values Args (in- and out-of-domain) + the same call in SQL.
 type Case struct {
-	Mode  string    `json:"mode"`
-	Expr  *Node     `json:"expr,omitempty"`
-	Ctxs  []string  `json:"ctxs,omitempty"`
-	Wrap  string    `json:"wrap,omitempty"` // function used by the "arg" context
-	Rows  []gen.Row `json:"rows,omitempty"`
-	Perm  []int     `json:"perm,omitempty"`
-	Fn    string    `json:"fn,omitempty"`
-	Args  []gen.Val `json:"args,omitempty"`
-	Lower bool      `json:"lower,omitempty"` // write and / or / not in lower case
-	Title bool      `json:"title,omitempty"` // write function names with an initial capital (Abs, Upper): names are case-insensitive
-	Names bool      `json:"names,omitempty"` // columns are called order_id, is_ok, island, notes, android, nothing_n, inner_m (names that contain keywords) instead of a, b, s, u, f, n, m
-	Excl  []string  `json:"excl,omitempty"`  // open-finding shapes the generator steered this case away from (shape@ctx: context left out, shape~: rewritten)
+	Mode   string    `json:"mode"`
+	Expr   *Node     `json:"expr,omitempty"`
+	Ctxs   []string  `json:"ctxs,omitempty"`
+	Wrap   string    `json:"wrap,omitempty"` // function used by the "arg" context
+	Rows   []gen.Row `json:"rows,omitempty"`
+	Perm   []int     `json:"perm,omitempty"`
+	Fn     string    `json:"fn,omitempty"`
+	Args   []gen.Val `json:"args,omitempty"`
+	Lower  bool      `json:"lower,omitempty"`  // write and / or / not in lower case
+	Title  bool      `json:"title,omitempty"`  // write function names with an initial capital (Abs, Upper): names are case-insensitive
+	Poison bool      `json:"poison,omitempty"` // a case-twin of every statement runs first in the process (see caseTwin)
+	Names  bool      `json:"names,omitempty"`  // columns are called order_id, is_ok, island, notes, android, nothing_n, inner_m (names that contain keywords) instead of a, b, s, u, f, n, m
+	Excl   []string  `json:"excl,omitempty"`   // open-finding shapes the generator steered this case away from (shape@ctx: context left out, shape~: rewritten)
 }
 
 var (
